@@ -38,6 +38,7 @@ func main() {
 	if *raceChildFlag {
 		raceChild(cfg.seed, cfg.tier)
 		racingVerify(cfg.seed, cfg.tier)
+		snapshotReaders(cfg.seed, cfg.tier)
 		return
 	}
 	g, ok := generators[cfg.prop]
